@@ -179,6 +179,9 @@ func judge(c *core.Case, w *World, gen string) *Outcome {
 		}()
 		g = runRef(w, false)
 	}()
+	if os.Getenv("C10_DEBUG") != "" && g != nil {
+		fmt.Fprintf(os.Stderr, "CASE %s:%d gas=%d kvm steps=%d frames=%d undo/logs=%d status=%s oog=%v | ref steps=%d frames=%d status=%s\n", c.Group, c.I, w.Gas, k1.Steps, k1.Frames, len(k1.Logs), k1.Status, k1.OOG, g.Steps, g.Frames, g.Status)
+	}
 	run.Eval(1)
 	run.Count("programs", 1)
 	run.Count("programs:"+gen, 1)
